@@ -156,8 +156,11 @@ func unstarted(state, body []byte) bool {
 		return false
 	}
 	lines := bytes.Split(body, []byte("\n"))
-	// lines[0] "goroutine N [runnable]:", lines[1] the function, lines[2] "\tfile:line" (+0x.. once it has run)
-	return len(lines) >= 3 && bytes.HasPrefix(lines[2], []byte("\t")) && !bytes.Contains(lines[2], []byte(" +0x"))
+	// lines[0] "goroutine N [runnable]:", lines[1] the goroutine's function, lines[2] "\tfile:line" without a "+0x.."
+	// offset, lines[3] "created by ...": ONE frame, at its entry. (An inlined leaf frame of a goroutine that is well on
+	// its way is also printed without an offset, but as "f(...)" and with more frames below it.)
+	return len(lines) >= 4 && bytes.HasPrefix(lines[2], []byte("\t")) && !bytes.Contains(lines[2], []byte(" +0x")) &&
+		!bytes.HasSuffix(lines[1], []byte("(...)")) && bytes.HasPrefix(lines[3], []byte("created by "))
 }
 
 func HelpersParked(createdBy string) (int, string) {
